@@ -53,6 +53,8 @@ pub struct SinkState {
     pub flushes: u64,
     /// fail the n-th flush (1-based) with this tag
     pub flush_fault: Option<(u64, u64)>,
+    /// (offset, length) of every write call that was accepted in full, in order
+    pub calls: Vec<(usize, usize)>,
 }
 
 /// A sink answering every `write` from a schedule; an exhausted schedule accepts everything.
@@ -74,11 +76,17 @@ impl Write for Sink {
         }
         match st.sched.pop_front() {
             None => {
+                let at = st.data.len();
+                st.calls.push((at, buf.len()));
                 st.data.extend_from_slice(buf);
                 Ok(buf.len())
             }
             Some(WResp::Accept(n)) => {
                 let m = n.min(buf.len()).max(1);
+                if m == buf.len() {
+                    let at = st.data.len();
+                    st.calls.push((at, m));
+                }
                 st.data.extend_from_slice(&buf[..m]);
                 Ok(m)
             }
